@@ -289,6 +289,9 @@ def run(ctx):
                 held = any(v is True and isinstance(a, tuple) and a[0] == "in" and mir.strip(a[1]) == x and list_of(a[2]) in HELD for a, v in fx.all_guards())
                 ck.ob("C03-R3", ANM, "modifier-output:pressed-unless-already-held", len(pressed) == 1 or held,
                       detail=None if (pressed or held) else "a modifier output is skipped without being known to be held")
+            elif not act and len(pressed) == 1:
+                # the branch does not ask which kind of key it is and presses it: right for either kind
+                ck.ob("C03-R3", ANM, "unclassified-output:Pressed-emitted", True)
             else:
                 ck.ob("C03-R3", ANM, "branch-classifies-the-output-with-is_action_key", False, detail=str(act))
         ck.floor("C03-R3", "press-loop-branches", nb, 2)
